@@ -54,6 +54,17 @@ def handle : List String → String
       let o := readBodyFrom (logged log) (setupDecompressor (logged log) .none enc) ps
       encRes o.result ++ " " ++ encLists o.outs ++ " " ++ encRem (remaining log o.final)
     | _, _, _ => "bad-arg"
+  | ["web", keep, t, e, pieces, log] =>
+    -- WebSession.download(file, duration_timeout) through Session.download and Stream.read_body
+    let e? : Option (Option Str) := if e == "None" then some none
+      else if e.startsWith "=" then (decList? (e.drop 1).toString).map some else none
+    let t? : Option (Option Nat) := if t == "None" then some none else t.toNat?.map some
+    match e?, t?, decLists? pieces, decLog? log with
+    | some enc, some timeout, some ps, some log =>
+      let a := webDownloadArgs (keep == "T") timeout
+      let o := sessionDownloadOutcome (logged log) a enc ps
+      encRes (o.observed _ a.keepFile) ++ " " ++ encBool a.raw ++ " " ++ encRem (remaining log o.final)
+    | _, _, _, _ => "bad-arg"
   | ["gzipw", pieces, log] =>
     match decLists? pieces, decLog? log with
     | some ps, some log => encRes (gzipRunFrom (logged log) (GzipSt.new _) ps)
